@@ -3,6 +3,7 @@ package namesys
 import (
 	"context"
 	"errors"
+	"math"
 	"strings"
 	"sync"
 	"time"
@@ -188,6 +189,11 @@ func (p *IPNSPublisher) updateRecord(ctx context.Context, k crypto.PrivKey, valu
 				// value changes.
 				// TODO: also compare Data field (https://specs.ipfs.tech/ipns/ipns-record/#extensible-data-dag-cbor)
 				// if we ever expose ability to set custom CBOR in PublishOptions
+				if seq == math.MaxUint64 {
+					// The sequence space is exhausted: wrapping to 0 would
+					// publish a record every client considers older.
+					return nil, ErrInvalidSequence
+				}
 				seq++
 			}
 		}
